@@ -84,8 +84,11 @@ type fsEntry struct {
 	WalkErr bool     `json:"walkErr"`
 	OpenErr bool     `json:"openErr"`
 	LoadErr bool     `json:"loadErr"`
-	Defines []string `json:"defines"`
+	Defines []*string `json:"defines"` // null = a define whose NAME fails to evaluate
 }
+
+// c19FailingDefines: generate `define` attributes whose name cannot be evaluated (the driver accepts null entries)
+var c19FailingDefines = false // switched on together with the extended FP model
 
 // C19: the manager registers exactly the matching files under unique names.
 func propC19(c *ctx) error {
@@ -100,7 +103,7 @@ func propC19(c *ctx) error {
 			sub = "views"
 		}
 		files := map[string]string{} // path relative to the (sub-directory) root -> content
-		defines := map[string][]string{}
+		defines := map[string][]*string{}
 		dirs := []string{""}
 		for k := r.n(4); k > 0; k-- {
 			d := dirs[r.n(len(dirs))]
@@ -125,13 +128,21 @@ func propC19(c *ctx) error {
 			}
 			var sb strings.Builder
 			sb.WriteString("<p>" + p + "</p>")
-			var defs []string
+			var defs []*string
 			for q := r.n(3); q > 0; q-- {
 				fn := r.pick([]string{"f1", "f2", "hdr", "a.html", "b/index.html", "f" + fmt.Sprint(k)})
 				if r.p(70) {
 					fn = fmt.Sprintf("frag-%d-%d", k, q)
 				}
-				defs = append(defs, fn)
+				if c19FailingDefines && r.p(6) {
+					// the name of this fragment cannot be evaluated: an error raised while registering the fragments,
+					// after the file and the fragments before it have been registered
+					defs = append(defs, nil)
+					sb.WriteString(r.pick([]string{`<div :define>x</div>`, `<div :define="${nosuchname}">x</div>`, `<div :define="${1/0}">x</div>`}))
+					continue
+				}
+				f2 := fn
+				defs = append(defs, &f2)
 				sb.WriteString(`<div :define="` + fn + `">x</div>`)
 			}
 			if r.p(8) && strings.HasSuffix(p, ".html") {
@@ -289,12 +300,16 @@ func propC19(c *ctx) error {
 			wantFiles = append(wantFiles, e.Path)
 			wantTpls = append(wantTpls, e.Path)
 			for _, d := range e.Defines {
-				if reg[d] {
+				if d == nil {
+					wantErr = "load"
+					break loop
+				}
+				if reg[*d] {
 					wantErr = "duplicate"
 					break loop
 				}
-				reg[d] = true
-				wantTpls = append(wantTpls, d)
+				reg[*d] = true
+				wantTpls = append(wantTpls, *d)
 			}
 		}
 		sort.Strings(wantFiles)
